@@ -100,9 +100,10 @@ func (c *cluster) step(id uint64, op nodesim.Op) bool {
 		return true
 	}
 	pre := w.Node.Digest()
+	nfail := c.st.PropertyFailures()
 	ok := w.Step(op)
 	c.logf("n%d %s", id, op.Kind)
-	if !ok && len(c.st.Disagreements) > 0 {
+	if !ok && (c.st.PropertyFailures() > nfail || w.Node == nil || w.Node.Panic != "") {
 		return false
 	}
 	if w.Node == nil {
@@ -130,6 +131,7 @@ func votersOf(cfg raft.VConfig) []uint64 {
 func (c *cluster) afterStep(id uint64, pre, post raft.VNode, op nodesim.Op) {
 	// a new election: vote requests to every other voter of the latest configuration
 	if post.Role == "candidate" && (pre.Role != "candidate" || post.Term != pre.Term) {
+		c.purgeVotes(id, post.Term)
 		for _, v := range votersOf(post.Configs.Latest) {
 			if v != id {
 				c.send(&msg{From: id, To: v, Kind: "voteReq", Epoch: post.Term,
@@ -139,6 +141,9 @@ func (c *cluster) afterStep(id uint64, pre, post raft.VNode, op nodesim.Op) {
 	}
 	// leadership acquired: fresh replication state
 	if post.Role == "leader" && (pre.Role != "leader" || c.epoch[id] != post.Term) {
+		if c.rng.Intn(4) != 0 {
+			c.purgeVotes(0, post.Term+1)
+		}
 		c.repls[id], c.epoch[id] = map[uint64]*repl{}, post.Term
 	}
 	if post.Role == "leader" {
@@ -174,6 +179,28 @@ func (c *cluster) afterStep(id uint64, pre, post raft.VNode, op nodesim.Op) {
 }
 
 func (c *cluster) send(m *msg) { c.net = append(c.net, m) }
+
+// purgeVotes loses the vote traffic of elections older than term (message loss is always legal; without
+// it the queue fills with stale vote requests and the cluster spends its time electing).
+func (c *cluster) purgeVotes(from uint64, term uint64) {
+	out := c.net[:0:0]
+	for _, m := range c.net {
+		if (m.Kind == "voteReq" || m.Kind == "voteResp") && m.Epoch < term && (from == 0 || m.From == from || m.To == from) {
+			continue
+		}
+		out = append(out, m)
+	}
+	c.net = out
+}
+
+func (c *cluster) voteTraffic() bool {
+	for _, m := range c.net {
+		if m.Kind == "voteReq" || m.Kind == "voteResp" {
+			return true
+		}
+	}
+	return false
+}
 
 // replicate: what the replication goroutine of leader l for follower f would send now.
 func (c *cluster) replicate(l, f uint64) {
@@ -409,6 +436,49 @@ func (c *cluster) checkGlobal(touched uint64) {
 			c.applied = append([]string{}, a...)
 		}
 	}
+	// C09: every state machine holds exactly the replay of the committed log up to its index, whatever
+	// mixture of log application, restart from snapshot + suffix and snapshot installation produced it;
+	// a stored snapshot covers committed entries only
+	for id, d := range ds {
+		if d.Closed != "" {
+			continue
+		}
+		want, complete := []string{}, true
+		for i := uint64(1); i <= d.Fsm.Index; i++ {
+			ck, ok := c.committed[i]
+			if !ok {
+				complete = false
+				break
+			}
+			if v := c.entries[ck]; v.typ == 2 {
+				want = append(want, v.data)
+			}
+		}
+		if !complete {
+			c.fail("C09/C03", fmt.Sprintf("node %d applied up to %d but not every index up to there is known committed", id, d.Fsm.Index))
+			return
+		}
+		if len(want) != len(d.Fsm.Applied) {
+			c.fail("C09/C03", fmt.Sprintf("node %d at applied index %d holds %d updates, replaying the committed log gives %d", id, d.Fsm.Index, len(d.Fsm.Applied), len(want)))
+			return
+		}
+		for i := range want {
+			if want[i] != d.Fsm.Applied[i] {
+				c.fail("C09/C03", fmt.Sprintf("node %d at applied index %d: update %d is %q, replaying the committed log gives %q", id, d.Fsm.Index, i+1, d.Fsm.Applied[i], want[i]))
+				return
+			}
+		}
+		if d.SnapIndex > 0 {
+			if ck, ok := c.committed[d.SnapIndex]; !ok || ck.term != d.SnapTerm {
+				c.fail("C09/C12", fmt.Sprintf("node %d stores a snapshot labelled (%d,%d) but that entry is not committed", id, d.SnapIndex, d.SnapTerm))
+				return
+			}
+		}
+		if d.Log.Prev > d.SnapIndex {
+			c.fail("C09", fmt.Sprintf("node %d compacted its log up to %d beyond its snapshot %d: it can neither restart nor serve a lagging follower", id, d.Log.Prev, d.SnapIndex))
+			return
+		}
+	}
 	// C06: a commit observed at the leader is durable on a majority of the voters (disk state of every node)
 	w := c.nodes[touched]
 	for _, ob := range w.Obs() {
@@ -522,14 +592,14 @@ func (c *cluster) run(nevents int) {
 			return
 		}
 		// alternate calm phases (mostly delivery and replication) and stormy phases
-		storm := (ev/120)%3 == 2
+		storm := (ev/150)%4 == 3
 		r := rng.Intn(1000)
-		tmo, lose, rst, prt := 12, 10, 4, 4
+		tmo, lose, rst, prt := 3, 4, 2, 2
 		if storm {
-			tmo, lose, rst, prt = 70, 60, 25, 25
+			tmo, lose, rst, prt = 45, 50, 20, 20
 		}
 		switch {
-		case r < 480 && len(c.net) > 0:
+		case r < 500 && len(c.net) > 0:
 			i := rng.Intn(len(c.net))
 			if rng.Intn(3) != 0 {
 				i = 0 // mostly in order
@@ -547,15 +617,21 @@ func (c *cluster) run(nevents int) {
 			if !c.deliver(i, !dup) {
 				return
 			}
-		case r < 480+lose && len(c.net) > 0:
+		case r < 500+lose && len(c.net) > 0:
 			i := rng.Intn(len(c.net))
 			c.net = append(c.net[:i:i], c.net[i+1:]...) // lost
 		case r < 760:
 			ls := c.leaderIDs()
 			if len(ls) == 0 {
-				// nobody leads: somebody times out
+				// nobody leads: once the vote traffic has drained somebody times out
+				if c.voteTraffic() && rng.Intn(8) != 0 {
+					continue
+				}
 				id := alive[rng.Intn(len(alive))]
-				if rng.Intn(4) == 0 && !c.step(id, nodesim.Op{Kind: "timeout"}) {
+				if parts[id] && rng.Intn(3) != 0 {
+					continue
+				}
+				if !c.step(id, nodesim.Op{Kind: "timeout"}) {
 					return
 				}
 				continue
@@ -770,7 +846,7 @@ func main() {
 			results[w] = st
 			for i := w; i < nruns; i += *workers {
 				one(d, st, *seed*7000003+int64(i), nev)
-				if len(st.Disagreements) >= 3 {
+				if st.PropertyFailures() >= 2 || len(st.Disagreements) >= 8 {
 					break
 				}
 			}
